@@ -1218,6 +1218,41 @@ pub fn mono(genv: GlobalTypeEnv, file: core::File) -> (MonoFile, GlobalMonoEnv) 
         });
     }
 
+    // Non-generic type definitions may mention generic instances in their fields
+    for (name, def) in m.enum_base.clone() {
+        if !def.generics.is_empty() || !m.monoenv.genv.enums().contains_key(&name) {
+            continue;
+        }
+        let variants = def
+            .variants
+            .iter()
+            .map(|(v, tys)| {
+                let tys = tys.iter().map(|t| m.collapse_type_apps(t)).collect();
+                (v.clone(), tys)
+            })
+            .collect();
+        m.monoenv.genv.insert_enum(EnumDef {
+            name: def.name.clone(),
+            generics: vec![],
+            variants,
+        });
+    }
+    for (name, def) in m.struct_base.clone() {
+        if !def.generics.is_empty() || !m.monoenv.genv.structs().contains_key(&name) {
+            continue;
+        }
+        let fields = def
+            .fields
+            .iter()
+            .map(|(f, t)| (f.clone(), m.collapse_type_apps(t)))
+            .collect();
+        m.monoenv.genv.insert_struct(StructDef {
+            name: def.name.clone(),
+            generics: vec![],
+            fields,
+        });
+    }
+
     // Drop all generic enum defs to avoid Go backend panics
     m.monoenv.retain_enums(|_n, def| def.generics.is_empty());
     m.monoenv.retain_structs(|_n, def| def.generics.is_empty());
